@@ -84,6 +84,9 @@ def oracle_duccio(case) -> Result:
     val = float(v)
     if derived:
         s = [case['task_loss'] / (c - t) for c, t in zip(f32, t32)]
+        if reg.final_strengths is None:
+            res.bad('derived-strengths-not-fixed-at-the-first-call')
+            return res
         got = [float(x) for x in reg.final_strengths]
         if any(not _close(a, b, 1e-4) for a, b in zip(got, s)):
             res.bad('derived-strength-differs-from-task-loss-over-excess', got=got, want=s)
@@ -103,6 +106,13 @@ def oracle_duccio(case) -> Result:
         m2 = Stub({k: (c if k != n else max(c, targets[i]) * (1 + case['bump']))
                    for k, c in zip(names, costs)})
         v2 = float(make_fixed(reg, make)(m2, case['epoch'], case['n_epochs']))
+        if derived:
+            # strengths derived from the task loss are fixed by the FIRST call: a later call of
+            # the same object on a model whose cost moved uses them unchanged
+            v2_same = float(reg(m2, case['epoch'], case['n_epochs']))
+            if not _close(v2_same, v2, 1e-5) and not (v2 == 0 and v2_same == 0):
+                res.bad('later-call-does-not-use-the-strengths-fixed-at-the-first-call',
+                        metric=n, same_object=v2_same, fixed_strengths=v2)
         new_c = float(torch.tensor(max(costs[i], targets[i]) * (1 + case['bump']),
                                    dtype=torch.float32))
         inc = s[i] * ramp * (max(0.0, new_c - t32[i]) - max(0.0, f32[i] - t32[i]))
